@@ -1125,6 +1125,31 @@ Definition cast_down (w N : Z) (fuel : nat) (M : Z) (self : list Z) : res (list 
   | Returned t3' => Done t3'
   end.
 
+(* src/buint/cast.rs: fn cast_from *)
+Definition as_buint (w N : Z) (fuel : nat) (pb : Z) (from : Z) : res (list Z) :=
+  let out := (if (from <? 0) then (UMAX w (Z.to_nat N)) else (ZERO (Z.to_nat N))) in
+  let i := 0 in
+  t1' <- while_loop (R := list Z) fuel
+    (fun '(out, from, i) => (andb (negb (from =? 0)) (i <? N)))
+    (fun '(out, from, i) =>
+      let masked := (dg_and w (ud w from) (u_max w)) in
+      out <- arr_set out i masked ;;
+      if (pb <=? w) then (
+        let from := 0 in
+        let i := (i + 1) in
+        Done (Continue (out, from, i))
+      ) else (
+        let from := (p_wrapping_shr pb from w) in
+        let i := (i + 1) in
+        Done (Continue (out, from, i))
+      ))
+    (out, from, i) ;;
+  match t1' with
+  | Exited (out, from, i) =>
+      Done out
+  | Returned t2' => Done t2'
+  end.
+
 (* src/buint/convert.rs: fn from *)
 Definition from_uint (w N : Z) (fuel : nat) (pb : Z) (int : Z) : res (list Z) :=
   let UINT_BITS := pb in
